@@ -8,6 +8,7 @@ import (
 
 	"github.com/janelia-flyem/dvid/datastore"
 	"github.com/janelia-flyem/dvid/dvid"
+	"github.com/janelia-flyem/dvid/server"
 	"github.com/janelia-flyem/dvid/storage"
 
 	"verif/vsrv"
@@ -129,6 +130,7 @@ func buildKVRepo(spec dagSpec, insts []*kvInst) (*kvRepo, error) {
 func (r *kvRepo) drop() {
 	if len(r.uuids) > 0 {
 		datastore.DeleteRepo(dvid.UUID(r.uuids[0]), "")
+		server.VerifCloseJSONLogs(r.uuids)
 	}
 }
 
